@@ -43,20 +43,20 @@ Proof.
   congruence.
 Qed.
 
-(* the parser decodes e's place with e's type (the MIME rewrite is a change of text, not a typed binary form: exempt) *)
-Definition decoded_same_P (dec : list hw) (e : hw) : Prop :=
-  hw_type e = HMime \/ hw_type e = HMimeDm \/ In e dec \/
+(* e's place is handled with e's type in the other direction (parser / XML generator), or e is a pinned one-sided entry *)
+Definition decoded_same_P (dec exc : list hw) (e : hw) : Prop :=
+  In e exc \/ In e dec \/
   (hw_place e <> HContent /\ hw_place e <> HContentAny /\
    exists d, In d dec /\ hw_lang d = hw_lang e /\ hw_place d = HAttrAny /\ hw_type d = hw_type e).
 
-Lemma enc_matched_sound : forall dec e, enc_matched dec e = true -> decoded_same_P dec e.
+Lemma enc_matched_sound : forall dec exc e, enc_matched dec exc e = true -> decoded_same_P dec exc e.
 Proof.
-  unfold enc_matched, decoded_same_P. intros dec e H.
+  unfold enc_matched, decoded_same_P. intros dec exc e H.
   apply orb_true_iff in H. destruct H as [H|H].
   - apply orb_true_iff in H. destruct H as [H|H].
-    + unfold is_mime in H. destruct (hw_type e); try discriminate; auto.
-    + right. right. left. apply existsb_exists in H. destruct H as [d [Hin Hd]]. apply hw_eqb_eq in Hd. now subst.
-  - right. right. right.
+    + left. apply existsb_exists in H. destruct H as [d [Hin Hd]]. apply hw_eqb_eq in Hd. now subst.
+    + right. left. apply existsb_exists in H. destruct H as [d [Hin Hd]]. apply hw_eqb_eq in Hd. now subst.
+  - right. right.
     assert (Hex : existsb (fun d => (hw_lang d =? hw_lang e) && where_eqb (hw_place d) HAttrAny && kind_eqb (hw_type d) (hw_type e)) dec = true
                   /\ hw_place e <> HContent /\ hw_place e <> HContentAny).
     { destruct (hw_place e); try discriminate; (split; [assumption | split; discriminate]). }
@@ -66,31 +66,35 @@ Proof.
     exists d. repeat split; auto using where_eqb_eq, kind_eqb_eq.
 Qed.
 
-Lemma hardwired_ok_main : hardwired_ok main_table pinned_typed dec_hardwired enc_hardwired = true.
+Lemma hardwired_ok_main : hardwired_ok main_table pinned_typed pinned_enc_only dec_hardwired enc_hardwired = true.
 Proof. vm_compute. reflexivity. Qed.
+
+Ltac split_ok H :=
+  unfold hardwired_ok in H;
+  apply andb_true_iff in H; destruct H as [H H4]; apply andb_true_iff in H; destruct H as [H H3];
+  apply andb_true_iff in H; destruct H as [H H2]; apply andb_true_iff in H; destruct H as [H H1].
 
 Lemma hardwired_intended : forall h, In h (dec_hardwired ++ enc_hardwired) -> intended_P main_table pinned_typed h.
 Proof.
-  intros h Hin. pose proof hardwired_ok_main as H. unfold hardwired_ok in H.
-  apply andb_true_iff in H; destruct H as [H H3]. apply andb_true_iff in H; destruct H as [H H2]. apply andb_true_iff in H; destruct H as [H H1].
+  intros h Hin. pose proof hardwired_ok_main as H. split_ok H.
   apply hw_intended_sound. apply in_app_or in Hin. destruct Hin as [Hin|Hin].
   - exact (proj1 (forallb_forall _ _) H h Hin).
   - exact (proj1 (forallb_forall _ _) H1 h Hin).
 Qed.
 
-Lemma encoder_forms_decoded : forall e, In e enc_hardwired -> decoded_same_P dec_hardwired e.
+Lemma encoder_forms_decoded : forall e, In e enc_hardwired -> decoded_same_P dec_hardwired pinned_enc_only e.
 Proof.
-  intros e Hin. pose proof hardwired_ok_main as H. unfold hardwired_ok in H.
-  apply andb_true_iff in H; destruct H as [H H3]. apply andb_true_iff in H; destruct H as [H H2]. apply andb_true_iff in H; destruct H as [H H1].
-  apply enc_matched_sound.
-  exact (proj1 (forallb_forall _ _) H2 e Hin).
+  intros e Hin. pose proof hardwired_ok_main as H. split_ok H.
+  apply enc_matched_sound. exact (proj1 (forallb_forall _ _) H2 e Hin).
 Qed.
 
 Lemma pins_realised : forallb (pin_realised main_table (dec_hardwired ++ enc_hardwired)) pinned_typed = true.
-Proof.
-  pose proof hardwired_ok_main as H. unfold hardwired_ok in H.
-  apply andb_true_iff in H; destruct H as [H H3]. apply andb_true_iff in H; destruct H as [H H2]. apply andb_true_iff in H; destruct H as [H H1]. exact H3.
-Qed.
+Proof. pose proof hardwired_ok_main as H. split_ok H. exact H3. Qed.
+
+(* the pinned one-sided entries are really one-sided: written by the encoder, not handled in the other direction *)
+Lemma enc_only_realised :
+  forallb (fun x => existsb (hw_eqb x) enc_hardwired && negb (existsb (hw_eqb x) dec_hardwired)) pinned_enc_only = true.
+Proof. pose proof hardwired_ok_main as H. split_ok H. exact H4. Qed.
 
 (* table option BINARY: exactly the flagged rows are written as OPAQUE by the WBXML encoder and rendered in base64 by the
    XML generator (probe over every real tag row) *)
